@@ -605,8 +605,21 @@ func (t *tr) forStmt(x *ast.ForStmt, k kont, after func() string) string {
 	if rty == "" {
 		rty = t.resCoqType()
 	}
+	// only the variables the loop (or the code after it) mentions are parameters, so that an unrelated
+	// local of the enclosing function does not change the loop's signature
+	marker := name + " " + fv2 + " " + strings.Join(names, " ")
+	var keepN, keepD []string
+	for i, n := range names {
+		if mentionsWord(strings.ReplaceAll(body, marker, ""), n) {
+			keepN = append(keepN, n)
+			keepD = append(keepD, decls[i])
+		}
+	}
+	newCall := func(f string) string { return strings.TrimSpace(name + " " + f + " " + strings.Join(keepN, " ")) }
+	body = strings.ReplaceAll(body, marker, newCall(fv2))
 	def := fmt.Sprintf("(* %s: loop %d of %s *)\nFixpoint %s (%s : nat) %s {struct %s} : %s :=\n  match %s with\n  | O => GoOutOfFuel\n  | S %s =>\n      %s\n  end.\n",
-		t.where, t.nloop, t.fd.Name.Name, name, fv, strings.Join(decls, " "), fv, rty, fv, fv2, indent(indent(indent(body))))
+		t.where, t.nloop, t.fd.Name.Name, name, fv, strings.Join(keepD, " "), fv, rty, fv, fv2, indent(indent(indent(body))))
+	names = keepN
 	t.lifted = append(t.lifted, def)
 	t.liftedNames = append(t.liftedNames, name)
 	return wrapG(gInit, pre+recur("("+fuel+")"))
@@ -649,6 +662,24 @@ func (t *tr) postStmt(s ast.Stmt) string {
 	}
 	t.fail(s, "post statement")
 	return ""
+}
+
+// mentions: does the Coq text use the identifier n (as a whole word)?
+func mentionsWord(text, n string) bool {
+	isId := func(c byte) bool {
+		return c == '_' || c == '\'' || c >= '0' && c <= '9' || c >= 'a' && c <= 'z' || c >= 'A' && c <= 'Z'
+	}
+	for i := 0; ; {
+		j := strings.Index(text[i:], n)
+		if j < 0 {
+			return false
+		}
+		j += i
+		if (j == 0 || !isId(text[j-1])) && (j+len(n) == len(text) || !isId(text[j+len(n)])) {
+			return true
+		}
+		i = j + 1
+	}
 }
 
 func sortStrings(a []string) {
